@@ -29,7 +29,7 @@ func init() {
 		Assumptions: []string{"root", "reference filter as in C10; follow-paths are resolved by fsutil.FollowLinks itself (its correctness is C18's subject)", "K1 triage as in C10"},
 		Cases: func(tier string) int {
 			if tier == "thorough" {
-				return 60000
+				return 600000
 			}
 			return 3000
 		},
